@@ -12,6 +12,7 @@ package simkit
 import (
 	"container/heap"
 	"fmt"
+	"os"
 	"sort"
 	"sync"
 	"sync/atomic"
@@ -60,16 +61,34 @@ type Limits struct {
 }
 
 // Sim is the simulator of one run. Create it inside the bubble.
+// evlog (VERIF_EVLOG=<file>): every event the simulator runs, with its instant - a debugging aid for divergences.
+var evlog = func() *os.File {
+	if p := os.Getenv("VERIF_EVLOG"); p != "" {
+		f, _ := os.Create(p)
+		return f
+	}
+	return nil
+}()
+
+// EvLog writes a line to the event log, if one is kept.
+func EvLog(format string, a ...any) {
+	if evlog != nil {
+		fmt.Fprintf(evlog, format+"\n", a...)
+	}
+}
+
 type Sim struct {
-	Seed   uint64
-	start  time.Time
-	mu     sync.Mutex
-	inbox  []*Event
-	q      eventHeap
-	wake   chan struct{}
-	order  uint64
-	seq    atomic.Uint64 // global event sequence number for history stamps
-	Limits Limits
+	ranAny    bool
+	lastRunAt time.Duration
+	Seed      uint64
+	start     time.Time
+	mu        sync.Mutex
+	inbox     []*Event
+	q         eventHeap
+	wake      chan struct{}
+	order     uint64
+	seq       atomic.Uint64 // global event sequence number for history stamps
+	Limits    Limits
 
 	Events   int
 	Aborted  string // non-empty: the run hit a budget; oracles must not judge liveness-free claims on it
@@ -240,8 +259,19 @@ func (s *Sim) Run(main func()) string {
 			t.Stop()
 			continue
 		}
+		if s.ranAny && now == s.lastRunAt {
+			// No two events run at one simulated instant: goroutines released by two events of the same instant would
+			// later arm equal timers (a back-off without jitter) and be woken together - on several processors in an
+			// order nobody decides. A nanosecond of simulated time between them keeps every wake-up alone.
+			time.Sleep(time.Nanosecond)
+			continue
+		}
+		s.ranAny, s.lastRunAt = true, now
 		heap.Pop(&s.q)
 		s.Events++
+		if evlog != nil {
+			fmt.Fprintf(evlog, "%d %s\n", now, ev.Name)
+		}
 		ev.Run()
 	}
 }
